@@ -35,6 +35,16 @@ RULE = (
     "tensors, maxls): final_f = my weighted objective of the returned model <= objective of the guess, bounds.  "
     "reuse: sequences of 2..4 solves on one optimizer object (optionally the same data and GCPSampler objects), each "
     "compared bit-for-bit with a fresh object given the same arguments and np seed.  "
+    "sampler/large: a few sparse tensors per run with 60000 cells and 1e4..3e4 stored nonzeros in row-major / "
+    "column-major / reversed / random stored order (also 1-way and 5-way), sample counts at block edges (1024 .. 32768 "
+    "+-1) up to 2 x nnz, every sampler kind, dense NumPy oracle.  sampler/edited: the data object is sampled, edited in "
+    "place by item assignment (stored values changed / entries added or removed) and sampled again - by the same "
+    "GCPSampler when the pattern is unchanged, by a new one otherwise, and by the direct samplers: samples describe the "
+    "data as it stands and equal the draw from a freshly constructed tensor.  L-BFGS-B options over their whole range "
+    "incl. early exits (maxiter / maxfun 1..3, maxls 1..3, factr 0 .. 1e15, pgtol 0 .. 1e3) and starts 30x / 300x off "
+    "scale: 'never returns a higher objective than it started from' holds for every termination reason.  Guesses "
+    "with entries exactly at the lower bound 0 or next to it (1e-300, 1e-12).  reuse also with ONE data object edited "
+    "in place between the solves (same-size problems).  "
     "Non-trivial: sampler case with both strata non-empty and >= 2 samples; solve with >= 1 failed epoch; "
     "sequence with >= 2 solves of different size."
 )
@@ -49,6 +59,10 @@ ASSUMPTIONS = [
     "estimates on a sample are compared with the C12 tolerances (64 eps x term scale + model rounding, x n)",
     "reuse: 'equal' = identical factor matrices, weights and f_est_trace / final_f (bitwise); sampler reuse: identical "
     "subscripts, values and weights (a draw that raises must raise in the fresh sampler too)",
+    "a GCPSampler precomputes the nonzero pattern of the tensor it was built for: after an edit that changes the "
+    "pattern a new sampler is built (on the same, edited object); after a value-only edit the old sampler is kept",
+    "L-BFGS-B: a start whose objective is not finite (exp overflow for bernoulli_logit far off scale) is skipped; when "
+    "SciPy reports an abnormal termination, final_f is SciPy's value of the last trial point and is not compared",
     "sparse data with explicitly stored zeros is not generated for the samplers: whether a stored zero belongs to "
     "the 'nonzero' stratum (stratification is by stored entries) is not settled by the property",
 ]
@@ -189,7 +203,7 @@ def _check_stratified(ctx, A, subs, vals, wts, k, confirm_zeros=True):
     ctx.check(_in_range(subs, shape), "subscripts-inside-tensor")
     if not _in_range(subs, shape):
         return
-    at = np.array([A[tuple(s)] for s in subs], dtype=float)
+    at = np.asarray(A[tuple(subs.T)], dtype=float) if len(subs) else np.zeros(0)
     nnz = int(np.count_nonzero(A))
     nz, zz = slice(0, k), slice(k, None)
     ctx.check(bool(np.all(at[nz] != 0)) and np.array_equal(vals[nz], at[nz]), "nonzero-samples-carry-data-values")
@@ -325,9 +339,11 @@ def _samples_arg(draw, nnz, nzeros, stratified):
     kind = draw(st.sampled_from(["default", "int", "count"] if stratified else ["default", "int"]))
     if kind == "default":
         return None
-    if kind == "int":
-        return draw(st.integers(1, 2 * (nnz + nzeros) + 2))
-    return [draw(st.integers(1, 2 * nnz + 1)), draw(st.integers(0 if nzeros == 0 else 1, 2 * nzeros + 1))]
+    if kind == "int":  # (a request for no samples at all is a degenerate but well-formed request)
+        return draw(st.one_of(st.just(0), st.integers(1, 2 * (nnz + nzeros) + 2), st.integers(1, 2 * (nnz + nzeros) + 2),
+                              st.integers(1, 2 * (nnz + nzeros) + 2)))
+    return [draw(st.one_of(st.just(0), st.integers(1, 2 * nnz + 1), st.integers(1, 2 * nnz + 1), st.integers(1, 2 * nnz + 1))),
+            draw(st.integers(0 if nzeros == 0 else 1, 2 * nzeros + 1))]
 
 
 @st.composite
@@ -512,6 +528,360 @@ def sampler_reuse(ctx, case):
 
 
 # --------------------------------------------------------------------------
+# a few large cases per run: sizes above internal block thresholds (1e4 / 16384 stored nonzeros, 1e4+ samples)
+# --------------------------------------------------------------------------
+
+LARGE_SHAPES = [[40, 50, 30], [250, 240], [16, 15, 25, 10], [30, 20, 10, 5, 2], [60000], [3, 20000], [1, 300, 200]]
+
+
+@st.composite
+def _large_sampler_case(draw, tier):
+    shape = draw(st.sampled_from(LARGE_SHAPES))
+    n = ref.prod(shape)
+    nnz = draw(st.sampled_from([10000, 10001, 12000, 16384, 16385, 20000, 30000]))
+    kind = draw(st.sampled_from(["uniform", "uniform-dense", "stratified", "stratified", "semistrat", "gcp-default",
+                                 "gcp-uniform", "gcp-counts"]))
+    edges = [b + d for b in (1024, 4096, 8192, 10000, 16384, 32768) for d in (-1, 0, 1)]
+    cnt = st.one_of(st.sampled_from([3, 100, nnz - 1, nnz, nnz + 1, 2 * nnz]), st.sampled_from(edges), st.integers(1, 2 * nnz))
+    return dict(shape=shape, nnz=nnz, nzeros=n - nnz, data_seed=draw(st.integers(0, 2**31 - 1)),
+                stored=draw(st.sampled_from(["row-major", "column-major", "reverse", "random", "random"])),
+                dprov=draw(st.sampled_from(["ctor", "ctor", "np-shape", "from-dense", "assigned"])),
+                vkind=draw(st.sampled_from(["count", "float"])), vdtype=draw(st.sampled_from(["float64", "float64", "int64", "uint8"])),
+                kind=kind, num_nonzeros=draw(cnt), num_zeros=draw(cnt),
+                samples=draw(st.one_of(st.sampled_from([1, 1023, 1024, 1025]), st.integers(2, 1500))),
+                dense_samples=draw(st.one_of(st.sampled_from(edges + [70000]), st.integers(10000, 70000))), np_seed=draw(st.integers(0, 2**31 - 1)))
+
+
+def _large_data(case):
+    """(dense array, sparse tensor) of a large case: nnz distinct positions drawn from the case's data seed, stored in
+    the drawn order, built through the drawn public route"""
+    rs = np.random.RandomState(case["data_seed"])
+    shape = tuple(case["shape"])
+    n = ref.prod(shape)
+    lin = rs.choice(n, size=case["nnz"], replace=False)
+    subs = np.array(np.unravel_index(lin, shape, order="F")).T.reshape(len(lin), len(shape))
+    if case["stored"] == "column-major":
+        subs = subs[np.argsort(lin)]
+    elif case["stored"] == "row-major":
+        subs = subs[np.argsort(np.ravel_multi_index(tuple(subs.T), shape, order="C"))]
+    elif case["stored"] == "reverse":
+        subs = subs[np.argsort(lin)[::-1]]
+    if case["vkind"] == "count":
+        vals = rs.randint(1, 10, size=len(lin)).astype(float)
+    else:
+        vals = rs.uniform(0.5, 2.0, size=len(lin)) * rs.choice([-1.0, 1.0], size=len(lin))
+    A = np.zeros(shape)
+    A[tuple(subs.T)] = vals
+    tv = H.typed(vals, case["vdtype"] if case["vkind"] == "count" else "float64").reshape(-1, 1)
+    prov = case["dprov"]
+    S = None
+    try:
+        if prov == "np-shape":
+            S = ttb.sptensor(subs, tv, tuple(np.array(shape, dtype=np.int64)))
+        elif prov == "from-dense":
+            S = ttb.tensor(A.astype(tv.dtype)).to_sptensor()
+        elif prov == "assigned":  # the last few entries arrive by item assignment (appended to the stored list)
+            S = ttb.sptensor(subs[:-5], tv[:-5], shape)
+            for sub, v in zip(subs[-5:], tv[-5:]):
+                S[tuple(int(i) for i in sub)] = v[0].item()
+    except Exception:  # noqa: BLE001
+        S = None
+    if S is not None and not (tuple(int(x) for x in S.shape) == shape and S.nnz == case["nnz"] and np.array_equal(ref.den(S), A)):
+        S = None
+    if S is None:
+        S = ttb.sptensor(subs, tv, shape)
+    return A, S
+
+
+def _own_nz_idx(S):
+    """sorted linear indices (first subscript fastest) of the stored entries - my own index arithmetic"""
+    return np.sort(np.ravel_multi_index(tuple(np.asarray(S.subs).T), tuple(int(x) for x in S.shape), order="F"))
+
+
+def _check_uniform(ctx, A, out, k, tag=""):
+    subs, vals, wts, n = _check_triple(ctx, out, A.ndim)
+    ctx.check(n == k, tag + "number-of-samples-as-requested", f"{n} vs {k}")
+    ok = _in_range(subs, A.shape)
+    ctx.check(ok, tag + "subscripts-inside-tensor")
+    if ok and n:
+        ctx.check(np.array_equal(np.asarray(A[tuple(subs.T)], dtype=float), vals), tag + "values-equal-data",
+                  f"{int(np.count_nonzero(np.asarray(A[tuple(subs.T)], dtype=float) != vals))} of {n} values differ")
+    if n:
+        ctx.check(_total_ok(wts, A.size), tag + "weights-total-number-of-entries", f"{np.sum(wts)} vs {A.size}")
+
+
+@cell("C13/sampler/large", strategy=_large_sampler_case, quick=4, thorough=40, shards=(1, 4))
+def sampler_large(ctx, case):
+    """the sampler clauses on tensors with 1e4..3e4 stored nonzeros and sample counts up to 6e4 (dense NumPy oracle)"""
+    A, S = _large_data(case)
+    kind = case["kind"]
+    ctx.label("kind-" + kind, "stored-" + case["stored"], "data-" + case["dprov"], "vals-" + str(S.vals.dtype),
+              f"order{A.ndim}", f"nnz={case['nnz']}")
+    ctx.nt = True
+    knz, kz = case["num_nonzeros"], case["num_zeros"]
+    np.random.seed(case["np_seed"])
+    if kind == "uniform":
+        with ctx.sut("samplers.uniform"):
+            out = samplers.uniform(S, case["samples"])
+        _check_uniform(ctx, A, out, case["samples"])
+    elif kind == "uniform-dense":
+        T = ttb.tensor(A.copy(order="F"))
+        with ctx.sut("samplers.uniform"):
+            out = samplers.uniform(T, case["dense_samples"])
+        _check_uniform(ctx, A, out, case["dense_samples"])
+    elif kind in ("stratified", "semistrat"):
+        with ctx.sut("samplers." + kind):
+            out = samplers.stratified(S, _own_nz_idx(S), knz, kz) if kind == "stratified" else samplers.semistrat(S, knz, kz)
+        subs, vals, wts, n = _check_triple(ctx, out, A.ndim)
+        ctx.check(n == knz + kz if kind == "semistrat" else knz <= n <= knz + kz, "number-of-samples-at-most-as-requested",
+                  f"{n} vs {knz}+{kz}")
+        _check_stratified(ctx, A, subs, vals, wts, knz, confirm_zeros=kind == "stratified")
+    else:
+        with ctx.sut("GCPSampler"):
+            if kind == "gcp-default":
+                smp = GCPSampler(S)
+            elif kind == "gcp-uniform":
+                smp = GCPSampler(S, Samplers.UNIFORM, case["samples"], Samplers.UNIFORM, knz)
+            else:
+                smp = GCPSampler(S, Samplers.STRATIFIED, StratifiedCount(num_nonzeros=knz, num_zeros=kz), Samplers.SEMISTRATIFIED,
+                                 StratifiedCount(num_nonzeros=kz, num_zeros=knz))
+        for tag, call in (("function", smp.function_sample), ("gradient", smp.gradient_sample)):
+            with ctx.sut(f"GCPSampler.{tag}_sample"):
+                out = call(S)
+            if kind == "gcp-uniform" and tag == "function":
+                _check_uniform(ctx, A, out, case["samples"], tag + ":")
+                continue
+            subs, vals, wts, n = _check_triple(ctx, out, A.ndim)
+            semi = kind == "gcp-counts" and tag == "gradient"
+            k = int(np.size(smp.crng)) if semi else int(np.count_nonzero(vals))
+            _check_stratified(ctx, A, subs, vals, wts, k, confirm_zeros=not semi)
+    ctx.check(np.array_equal(ref.den(S), A), "sampler-leaves-data")
+
+
+# --------------------------------------------------------------------------
+# sparse tensors over huge index spaces: mode lengths beyond 2**53, 1e18 .. 1e22 cells, a handful of nonzeros
+# --------------------------------------------------------------------------
+
+HUGE_SHAPES = [[2**53 + 5, 3], [2**60, 4], [2**31, 2**31], [10**6, 10**6, 10**6], [2**62 // 3 + 1, 3], [2**32, 2**32],
+               [2**40, 2**30, 8], [4800000, 1800000, 1800000]]
+
+
+@st.composite
+def _huge_case(draw, tier):
+    shape = draw(st.sampled_from(HUGE_SHAPES))
+    nnz = draw(st.integers(1, 6))
+    coord = lambda n: st.one_of(st.sampled_from([0, n - 1, n // 2, n // 2 + 1]), st.integers(0, n - 1))  # noqa: E731
+    subs = draw(st.lists(st.tuples(*[coord(n) for n in shape]).map(list), min_size=nnz, max_size=nnz, unique_by=tuple))
+    return dict(shape=shape, subs=subs, vals=[float(draw(st.integers(1, 9))) for _ in subs], nnz=len(subs),
+                kind=draw(st.sampled_from(["uniform", "semistrat", "stratified", "stratified", "gcp-default", "gcp-counts"])),
+                num_nonzeros=draw(st.integers(0, 8)), num_zeros=draw(st.sampled_from([1, 2, 3, 4, 5, 8, 16, 100])),
+                samples=draw(st.integers(1, 40)), np_seed=draw(st.integers(0, 2**31 - 1)))
+
+
+def _cells(case):
+    n = 1
+    for m in case["shape"]:
+        n *= int(m)
+    return n
+
+
+@cell("C13/sampler/huge", strategy=_huge_case, quick=60, thorough=1200, shards=(1, 4))
+def sampler_huge(ctx, case):
+    """the sampler clauses where the number of entries is 1e16 .. 1e22: subscripts inside the tensor, values equal the
+    data (a table of the stored nonzeros), drawn zeros are true zeros, weights total the number of entries the sample
+    stands for (exact Python integer, compared in floating point with 1e-12 relative).  A sampler that cannot serve
+    such a tensor because linear indices do not fit 64 bits may reject it."""
+    shape = [int(m) for m in case["shape"]]
+    N = len(shape)
+    ncells = _cells(case)
+    table = {tuple(s): v for s, v in zip(case["subs"], case["vals"])}
+    nnz = len(table)
+    fits = ncells < 2**63
+    ctx.label("kind-" + case["kind"], "cells<2^63" if fits else "cells>=2^63", f"order{N}",
+              "mode>2^53" if max(shape) > 2**53 else "modes<=2^53")
+    ctx.nt = True
+    S = ttb.sptensor(np.array(case["subs"], dtype=np.int64).reshape(nnz, N), np.array(case["vals"]).reshape(nnz, 1), tuple(shape))
+    kind, knz, kz = case["kind"], case["num_nonzeros"], case["num_zeros"]
+
+    def judge(out, style, k, tag=""):
+        subs, vals, wts, n = _check_triple(ctx, out, N)
+        ok = all(0 <= int(x) < m for row in subs for x, m in zip(row, shape))
+        ctx.check(ok, tag + "subscripts-inside-tensor")
+        if not ok:
+            return
+        at = np.array([table.get(tuple(int(x) for x in row), 0.0) for row in subs], dtype=float)
+        tot = lambda w, e: abs(float(np.sum(w)) - float(e)) <= 1e-12 * float(e)  # noqa: E731
+        if style == "uniform":
+            ctx.check(np.array_equal(at, vals), tag + "values-equal-data")
+            if n:
+                ctx.check(tot(wts, ncells), tag + "weights-total-number-of-entries", f"{np.sum(wts)!r} vs {ncells}")
+            return
+        ctx.check(bool(np.all(at[:k] != 0)) and np.array_equal(vals[:k], at[:k]), tag + "nonzero-samples-carry-data-values")
+        ctx.check(bool(np.all(vals[k:] == 0)), tag + "zero-samples-have-value-zero")
+        if style == "stratified":
+            ctx.check(bool(np.all(at[k:] == 0)), tag + "zero-samples-are-true-zeros")
+        if k > 0:
+            ctx.check(tot(wts[:k], nnz), tag + "nonzero-weights-total-nnz", f"{np.sum(wts[:k])!r} vs {nnz}")
+        if len(wts[k:]) > 0:
+            expect = ncells - nnz if style == "stratified" else ncells
+            ctx.check(tot(wts[k:], expect), tag + "zero-weights-total-stratum-size", f"{np.sum(wts[k:])!r} vs {expect}")
+
+    np.random.seed(case["np_seed"])
+    if kind == "uniform":
+        with ctx.sut("samplers.uniform"):
+            out = samplers.uniform(S, case["samples"])
+        judge(out, "uniform", 0)
+    elif kind == "semistrat":
+        with ctx.sut("samplers.semistrat"):
+            out = samplers.semistrat(S, knz, kz)
+        judge(out, "semistrat", knz)
+    elif kind == "stratified":
+        if not fits:
+            ctx.skip("linear indices of the nonzeros (an argument of samplers.stratified) do not fit 64 bits")
+        nz_idx = np.array(sorted(ref.lin_index(sub, shape) for sub in case["subs"]), dtype=np.int64)
+        with ctx.sut("samplers.stratified"):
+            out = samplers.stratified(S, nz_idx, knz, kz)
+        judge(out, "stratified", knz)
+    else:
+        try:
+            if kind == "gcp-default":
+                smp = GCPSampler(S)
+            else:
+                smp = GCPSampler(S, Samplers.STRATIFIED, StratifiedCount(num_nonzeros=knz, num_zeros=kz), Samplers.SEMISTRATIFIED,
+                                 StratifiedCount(num_nonzeros=knz, num_zeros=kz))
+        except Exception as e:  # noqa: BLE001
+            if not fits:  # (linear indices not representable: the sampler may refuse the tensor)
+                ctx.label("sampler-refused-tensor-beyond-2^63-cells")
+                return
+            with ctx.sut("GCPSampler"):
+                raise e
+        for tag, call in (("function", smp.function_sample), ("gradient", smp.gradient_sample)):
+            with ctx.sut(f"GCPSampler.{tag}_sample"):
+                out = call(S)
+            semi = kind == "gcp-counts" and tag == "gradient"
+            k = int(np.size(smp.crng)) if semi else int(np.count_nonzero(np.ravel(np.asarray(out[1])))) if isinstance(out, tuple) and len(out) == 3 else 0
+            judge(out, "semistrat" if semi else "stratified", k, tag + ":")
+
+
+# --------------------------------------------------------------------------
+# the same data object after it was edited in place (item assignment): samples follow the data as it stands
+# --------------------------------------------------------------------------
+
+
+@st.composite
+def _edited_case(draw, tier):
+    c = draw(_gcpsampler_case(tier))
+    n = ref.prod(c["shape"])
+    c["edit"] = draw(st.sampled_from(["revalue", "revalue", "restructure"]))
+    k = draw(st.integers(1, 4))
+    c["edit_cells"] = draw(st.lists(st.integers(0, 10**6), min_size=k, max_size=k))
+    c["edit_vals"] = draw(st.lists(st.integers(1, 9).map(float), min_size=k, max_size=k))
+    c["seeds"] = [draw(st.integers(0, 2**31 - 1)) for _ in range(3)]
+    c["direct"] = draw(st.sampled_from(["uniform", "stratified", "semistrat"]))
+    c["direct_counts"] = [draw(st.integers(0, 6)), draw(st.integers(0, 6))]
+    return c
+
+
+@cell("C13/sampler/edited", strategy=_edited_case, quick=250, thorough=5000, shards=(1, 4))
+def sampler_edited(ctx, case):
+    """data sampled, then edited in place through item assignment (values of stored entries changed; or entries
+    added / removed), then sampled again - by the same GCPSampler when the nonzero pattern is unchanged, by a new
+    GCPSampler on the same object otherwise, and by the direct samplers: every sample must describe the data as it
+    stands now, and equal the draw made from a freshly constructed tensor with that content"""
+    A = _dense_of(case)
+    dense = case["holder"] == "dense"
+    shape = tuple(case["shape"])
+    data = ttb.tensor(H.typed(A, case.get("vdtype")).copy(order="F"), shape) if dense else _build_sp(case)
+
+    def mk_sampler(d):
+        fs = None if case["fs"] is None else getattr(Samplers, case["fs"])
+        gs = None if case["gs"] is None else getattr(Samplers, case["gs"])
+        kw = {} if case.get("over_sample_rate") is None else dict(over_sample_rate=case["over_sample_rate"])
+        return GCPSampler(d, fs, _mk_count(case["fn"]), gs, _mk_count(case["gn"]), case["max_iters"], **kw)
+
+    ctx.label("holder-" + case["holder"], "edit-" + case["edit"], f"f-{case['fs']}", f"g-{case['gs']}", "direct-" + case["direct"])
+    with ctx.sut("GCPSampler"):
+        smp = mk_sampler(data)
+    for call in (smp.function_sample, smp.gradient_sample):  # (what a first draw returns is judged by the other cells)
+        _draw_or_raise(lambda: call(data), case["seeds"][0])
+    # --- the edit, through the public item assignment only
+    nz = np.argwhere(A != 0)
+    allsubs = ref.all_subs_F(shape)
+    want = A.copy()
+    try:
+        for cidx, v in zip(case["edit_cells"], case["edit_vals"]):
+            if case["edit"] == "revalue":
+                sub = tuple(int(i) for i in nz[cidx % len(nz)])
+                new = v if want[sub] != v else v + 1.0
+            else:
+                sub = tuple(allsubs[cidx % len(allsubs)])
+                new = 0.0 if want[sub] != 0 and np.count_nonzero(want) > 1 else (v if want[sub] != v else v + 1.0)
+            data[sub] = new
+            want[sub] = new
+    except Exception:  # noqa: BLE001  (item assignment itself is the subject of other properties)
+        ctx.skip("item assignment raised")
+    A2 = np.array(ref.den(data), dtype=float)
+    if not np.array_equal(A2, want):
+        ctx.skip("item assignment did not produce the wanted content")
+    ctx.nt = not np.array_equal(A2, A)
+    ctx.label("content-changed" if ctx.nt else "content-unchanged",
+              "pattern-unchanged" if np.array_equal(A2 != 0, A != 0) else "pattern-changed")
+    nnz2 = int(np.count_nonzero(A2))
+    c2 = dict(case, nnz=nnz2, nzeros=A2.size - nnz2)
+    full = c2["nzeros"] == 0
+    same_pattern = np.array_equal(A2 != 0, A != 0)
+    if same_pattern and case["edit"] == "revalue":
+        ctx.label("sampler-object-kept")
+    else:
+        with ctx.sut("GCPSampler"):
+            smp = mk_sampler(data)  # a new sampler for the edited object
+    # a freshly constructed tensor with the same content (and, for sparse data, the same stored order)
+    if dense:
+        fresh = ttb.tensor(np.array(data.data, copy=True, order="K"), shape)
+    else:
+        fresh = ttb.sptensor(np.array(data.subs, copy=True), np.array(data.vals, copy=True), shape)
+    with ctx.sut("GCPSampler"):
+        smp_fresh = mk_sampler(fresh)
+    f_kind = "uniform" if (dense or case["fs"] == "UNIFORM") else "stratified"
+    g_kind = "uniform" if dense else {"SEMISTRATIFIED": "semistrat"}.get(case["gs"], "stratified")
+    f_imp = f_kind == "stratified" and full and _asks_zeros(c2, "fn")
+    g_imp = g_kind == "stratified" and full and case["gs"] != "UNIFORM" and _asks_zeros(c2, "gn")
+    for tag, imp, kind, seed in (("function", f_imp, f_kind, case["seeds"][1]), ("gradient", g_imp, g_kind, case["seeds"][2])):
+        call = (lambda s_, d_: s_.function_sample(d_)) if tag == "function" else (lambda s_, d_: s_.gradient_sample(d_))
+        np.random.seed(seed)
+        if imp:
+            try:
+                out = call(smp, data)
+            except Exception:  # noqa: BLE001
+                continue
+        else:
+            with ctx.sut(f"GCPSampler.{tag}_sample"):
+                out = call(smp, data)
+        k = None
+        if kind == "semistrat":
+            k = int(np.size(smp.crng))
+        _check_gcp_sample(ctx, c2, A2, out, kind, k, tag + "-after-edit")
+        want_draw = _draw_or_raise(lambda: call(smp_fresh, fresh), seed)
+        ctx.check(_same_sample(out, want_draw), "draw-from-edited-object-equals-draw-from-fresh-tensor", tag)
+    # direct samplers on the edited object
+    knz, kz = case["direct_counts"]
+    np.random.seed(case["seeds"][0])
+    if case["direct"] == "uniform":
+        with ctx.sut("samplers.uniform"):
+            out = samplers.uniform(data, knz + kz)
+        _check_uniform(ctx, A2, out, knz + kz, "direct-after-edit:")
+    elif not dense and not (full and kz > 0):
+        with ctx.sut("samplers." + case["direct"]):
+            if case["direct"] == "stratified":
+                out = samplers.stratified(data, _own_nz_idx(data), knz, kz)
+            else:
+                out = samplers.semistrat(data, knz, kz)
+        subs, vals, wts, n = _check_triple(ctx, out, A2.ndim)
+        _check_stratified(ctx, A2, subs, vals, wts, knz, confirm_zeros=case["direct"] == "stratified")
+    ctx.check(np.array_equal(ref.den(data), A2), "sampler-leaves-data")
+
+
+# --------------------------------------------------------------------------
 # solvers
 # --------------------------------------------------------------------------
 
@@ -627,7 +997,18 @@ def _problem(draw, tier, losses=SOLVE_LOSSES, holders=("dense", "sparse"), max_o
                                       "ktensor-arranged"]))
     lo = 0.1 if H.LOSSES[name]["lb"] == 0.0 else 0.05
     fv = st.floats(lo, 1.5) if H.LOSSES[name]["lb"] == 0.0 else H.sfloats(lo, 1.5)
+    # guess entries: ordinary, or some of them exactly at the loss's lower bound 0 (where a projected step leaves an
+    # entry; 0 is also an ordinary entry for the unbounded losses) or next to it (1e-300, 1e-12)
+    gclass = draw(st.sampled_from(["ordinary", "ordinary", "ordinary", "some-zero", "some-tiny", "identity-like"]))
+    if gclass == "some-zero":
+        fv = st.one_of(st.just(0.0), fv, fv, fv)
+    elif gclass == "some-tiny":
+        fv = st.one_of(st.sampled_from([1e-300, 1e-12, 0.0]), fv, fv, fv)
     factors = [draw(st.lists(st.lists(fv, min_size=rank, max_size=rank), min_size=s, max_size=s)) for s in shape]
+    if gclass == "identity-like":  # leading blocks of identity matrices, exactly or perturbed by 1e-9 .. 1e-4
+        eps = draw(st.sampled_from([0.0, 1e-9, 1e-6, 1e-4]))
+        factors = [[[(1.0 if i == j else 0.0) + (eps * draw(st.floats(0.01, 1.0)) if eps else 0.0) for j in range(rank)]
+                    for i in range(s)] for s in shape]
     # data magnitude: the Gaussian loss is scale-free (data and guess are scaled together)
     dscale = draw(st.sampled_from([1.0, 1.0, 1.0, 1e-3, 1e3])) if name == "gaussian" else 1.0
     if dscale != 1.0:
@@ -638,7 +1019,7 @@ def _problem(draw, tier, losses=SOLVE_LOSSES, holders=("dense", "sparse"), max_o
                 factors=factors, stored=draw(st.sampled_from(["sorted", "reverse", "random"])),
                 perm_seed=draw(st.integers(0, 9999)), dscale=dscale,
                 iweights=draw(st.lists(wv, min_size=rank, max_size=rank)),
-                ddtype=draw(st.sampled_from(["float64", "float64", "float64", "int64", "uint8", "int32"])),
+                gclass=gclass, ddtype=draw(st.sampled_from(["float64", "float64", "float64", "int64", "uint8", "int32"])),
                 dprov=draw(st.sampled_from(["ctor", "ctor", "grown", "c-order"] if holder == "dense" else ["ctor", "ctor", "np-shape"])))
 
 
@@ -804,7 +1185,7 @@ def _stochastic_body(ctx, case):
               "init-" + case["init"], f"max_iters={a['max_iters']}", f"max_fails={a['max_fails']}",
               "objective-enum" if as_enum else "objective-tuple", f"f_est_tol={a.get('f_est_tol')}",
               f"printitn={a.get('printitn', 0)}", "data-" + _data_dtype(data), "data-prov-" + case.get("dprov", "ctor"),
-              f"data-scale-{case.get('dscale', 1.0)}")
+              f"data-scale-{case.get('dscale', 1.0)}", "guess-" + case.get("gclass", "ordinary"))
     opt = _mk_solver(a)
     with ctx.sut("GCPSampler"):
         inner = _mk_sampler(case, data, X)
@@ -871,15 +1252,27 @@ for _k in ("sgd", "adam", "adagrad"):
 def _lbfgsb_case(draw, tier):
     c = draw(_problem(tier, holders=("dense",)))
     n = ref.prod(c["shape"])
-    c["solver"] = dict(kind="lbfgsb", m=draw(st.sampled_from([None, 1, 3, 5])), maxiter=draw(st.integers(1, 12)),
-                       maxfun=draw(st.sampled_from([None, None, 3, 20])),
-                       factr=draw(st.sampled_from([1e7, 1e1, 1e12])), pgtol=draw(st.sampled_from([None, 1e-8, 1e-2])))
+    # every option over its admissible range, incl. the values that end the solver early for each of its reasons:
+    # iteration / evaluation limits at 1..3, a line search allowed 1..3 steps (it then usually gives up), tolerances
+    # that are met at once (huge) or never (0)
+    c["solver"] = dict(kind="lbfgsb", m=draw(st.sampled_from([None, 1, 3, 5])),
+                       maxiter=draw(st.one_of(st.integers(1, 3), st.integers(1, 12))),
+                       maxfun=draw(st.sampled_from([None, None, None, 1, 2, 3, 20])),
+                       factr=draw(st.sampled_from([1e7, 1e7, 1e1, 1e12, 0.0, 1e15])),
+                       pgtol=draw(st.sampled_from([None, None, 1e-8, 1e-2, 0.0, 1e-12, 1e3])))
     mk = draw(st.sampled_from(["none", "none", "tensor", "tensor"]))
     c["mask"] = None if mk == "none" else draw(st.lists(st.sampled_from([0.0, 1.0, 1.0]), min_size=n, max_size=n))
     c["objective_as"] = draw(st.sampled_from(["tuple", "enum"]))
     c["np_seed"] = draw(st.integers(0, 2**31 - 1))
     c["mdtype"] = draw(st.sampled_from(["float64", "float64", "int64", "bool", "uint8"]))  # a mask is naturally 0/1 integers or booleans
-    c["solver"]["maxls"] = draw(st.sampled_from([None, None, 5, 40]))
+    c["solver"]["maxls"] = draw(st.sampled_from([None, None, 1, 1, 2, 2, 3, 5, 40]))
+    # a start far from the data's scale makes the first line search hard (steps rejected, line search may give up)
+    c["gscale"] = draw(st.sampled_from([1.0, 1.0, 1.0, 30.0, 1e-2, 300.0]))
+    if c["loss"] == "bernoulli_logit":  # (exp(model value) must stay finite for the start to have an objective)
+        c["gscale"] = min(c["gscale"], 30.0)
+    if c["gscale"] != 1.0 and c["init"] != "random":
+        g = c["gscale"] ** (1.0 / len(c["shape"]))
+        c["factors"] = [[[v * g for v in row] for row in f] for f in c["factors"]]
     return c
 
 
@@ -908,7 +1301,7 @@ def solve_lbfgsb(ctx, case):
     mask = None if W is None else ttb.tensor(H.typed(W, case.get("mdtype")).copy(order="F"), tuple(case["shape"]))
     if mask is not None:
         ctx.label("mask-dtype-" + str(mask.data.dtype))
-    ctx.label("loss-" + name, "mask-" + ("none" if W is None else "tensor"), "init-" + case["init"],
+    ctx.label("loss-" + name, "mask-" + ("none" if W is None else "tensor"), "init-" + case["init"], "guess-" + case.get("gclass", "ordinary"),
               f"maxiter={case['solver']['maxiter']}", "objective-enum" if as_enum else "objective-tuple")
     opt = _mk_solver(case["solver"])
     np.random.seed(case["np_seed"])
@@ -923,10 +1316,17 @@ def solve_lbfgsb(ctx, case):
     F1, tol1 = _objective(name, fh, M, Xw, W)
     F0, tol0 = _objective(name, fh, M0, Xw, W)
     ff = float(info["final_f"])
+    if not np.isfinite(F0):
+        ctx.skip("objective of the starting guess is not finite")
     ctx.nt = F1 < F0 - tol0 - tol1
     ctx.label("improved" if ctx.nt else "not-improved")
     task = info.get("task")
     task = task.decode(errors="replace") if isinstance(task, bytes) else str(task)
+    sv = case["solver"]
+    ctx.label(f"maxls={sv.get('maxls')}", f"maxfun={sv.get('maxfun')}", f"factr={sv.get('factr')}", f"pgtol={sv.get('pgtol')}",
+              f"guess-scale-{case.get('gscale', 1.0)}", f"warnflag={info.get('warnflag')}",
+              "stop-" + ("abnormal" if "ABNORMAL" in task else "limit" if "LIMIT" in task or "EXCEEDS" in task
+                         else "converged" if "CONVERGENCE" in task else "other"))
     if info.get("warnflag") == 2 or "ABNORMAL" in task:
         # SciPy reports an abnormal termination (line search gave up, e.g. with a small maxls): it then hands back the
         # last accepted point together with the value of the last trial point - its own convention, not pyttb's
@@ -979,7 +1379,9 @@ def _reuse_case(draw, tier, kind):
     seeds = [draw(st.integers(0, 2**31 - 1)) for _ in probs]
     # the same data tensor and GCPSampler object handed to every solve (only meaningful for one and the same problem)
     share = same == "same-problem" and draw(st.booleans())
-    return dict(solver=solver, problems=probs, seeds=seeds, relation=same, share_data_and_sampler=share)
+    # or: one data object serves every solve and is edited in place (item assignment) to hold the next problem's data
+    edit = same == "same-size" and draw(st.booleans())
+    return dict(solver=solver, problems=probs, seeds=seeds, relation=same, share_data_and_sampler=share, edit_data_object=edit)
 
 
 class _Counter:
@@ -994,7 +1396,29 @@ def _one_solve(ctx, opt, p, seed, what, shared=None):
     name, X, data, init = _build_problem(p)
     fh, gh, lb = fg_setup.setup(H.objective(name), None, None)
     M0 = ttb.ktensor([f.copy() for f in H.build_factors(p)])
-    if shared is not None:
+    if shared is not None and shared.get("mode") == "edit":
+        tgt = shared.get("data")
+        if tgt is None:
+            shared["data"] = data
+        else:
+            # the object the earlier solves worked on is overwritten entry by entry with this problem's data
+            ok = (tgt.data.dtype == data.data.dtype and tuple(tgt.shape) == tuple(data.shape)
+                  and tgt.data.flags["F_CONTIGUOUS"] == data.data.flags["F_CONTIGUOUS"])
+            if ok:
+                try:
+                    cur = np.asarray(tgt.data)
+                    for sub in np.argwhere(cur != X):
+                        tgt[tuple(int(i) for i in sub)] = data.data[tuple(sub)].item()
+                    ok = bool(np.array_equal(np.asarray(tgt.data), X))
+                except Exception:  # noqa: BLE001  (item assignment is judged by other properties)
+                    ok = False
+            if ok:
+                data = tgt
+                shared["edited"] = shared.get("edited", 0) + 1
+            else:
+                shared["data"] = data
+        shared["sampler"] = GCPSampler(data)  # a sampler is built per solve, as gcp_opt does
+    elif shared is not None:
         if "data" not in shared:
             shared["data"] = data
             shared["sampler"] = GCPSampler(data)
@@ -1042,8 +1466,8 @@ def _reuse_body(ctx, case):
 
     with ctx.sut("optimizer-constructor"):
         shared = mk(cb_shared)
-    shared_objs = {} if case.get("share_data_and_sampler") else None
-    if shared_objs is not None:
+    shared_objs = {} if case.get("share_data_and_sampler") else ({"mode": "edit"} if case.get("edit_data_object") else None)
+    if case.get("share_data_and_sampler"):
         ctx.label("data-and-sampler-objects-shared")
     for i, (p, seed) in enumerate(zip(probs, case["seeds"])):
         cb_fresh = _Counter() if a.get("callback") else None
@@ -1056,6 +1480,8 @@ def _reuse_body(ctx, case):
         if cb_shared is not None:
             ctx.check(cb_shared.n - before == cb_fresh.n, "user-callback-called-as-on-fresh-object",
                       f"{cb_shared.n - before} vs {cb_fresh.n}")
+    if case.get("edit_data_object"):
+        ctx.label(f"data-object-edited-in-place-x{shared_objs.get('edited', 0)}")
 
 
 for _k in ("sgd", "adam", "adagrad", "lbfgsb"):
@@ -1072,5 +1498,15 @@ PREDICATES = {
     "sampler_gcp_uniform_func": lambda case: case.get("sampler") == "gcp-uniform-func",
     "sampler_gcp_uniform_grad": lambda case: case.get("sampler") == "gcp-uniform-grad",
     "aggressive_step": lambda case: case["solver"]["kind"] == "adagrad" or case["solver"]["rate"] >= 0.3,
+    "edited_sparse": lambda case: case.get("holder") == "sparse" and "edit" in case and (
+        case.get("fs") != "UNIFORM" or case.get("gs") != "SEMISTRATIFIED" or case.get("direct") == "stratified"),
+    # (the shortfall of the zero rejection sampler has a noticeable probability only for requests of up to ~2000 zeros)
+    "large_few_zeros_requested": lambda case: (case.get("kind") in ("stratified", "gcp-counts") and 0 < case.get("num_zeros", 0) <= 2000)
+    or (case.get("kind") == "gcp-uniform" and 0 < case.get("num_nonzeros", 0) <= 4000),
+    # the number of entries does not fit a signed 64-bit integer
+    "huge_cells_ge_2_63": lambda case: "shape" in case and _cells(case) >= 2**63,
+    # requested zeros x number of entries does not fit a signed 64-bit integer (the number of entries itself does)
+    "huge_zero_request_overflows": lambda case: "shape" in case and _cells(case) < 2**63 and (
+        (min(case.get("nnz", 1), _cells(case)) if case.get("kind") == "gcp-default" else case.get("num_zeros", 0)) * _cells(case) >= 2**63),
     "sizes_differ": lambda case: len({(tuple(p["shape"]), p["rank"]) for p in case["problems"]}) > 1,
 }
